@@ -178,13 +178,13 @@ func genEProg(r *RNG, q *big.Int, maxOps int) *eProg {
 			o.Args = []int{pick()}
 		case "MulConst":
 			o.Args = []int{pick()}
-			switch r.Intn(4) {
+			switch r.Intn(4) { // MulConst documents a "small" constant
 			case 0:
 				o.K = big.NewInt(int64(r.Intn(5)))
 			case 1:
-				o.K = new(big.Int).Sub(q, big.NewInt(1))
+				o.K = new(big.Int).SetUint64(1<<32 - 1)
 			default:
-				o.K = r.Big(q)
+				o.K = big.NewInt(int64(r.Intn(1 << 20)))
 			}
 		case "Lookup2", "Mux":
 			o.Args = []int{pick(), pick(), pick(), pick()}
@@ -395,8 +395,12 @@ func recompLimbs(l []*big.Int, w uint) *big.Int {
 
 // operand patterns: canonical and non-canonical representations the witness parser accepts
 func c12Input(r *RNG, q *big.Int, w uint, nl int) (*big.Int, string) {
-	full := new(big.Int).Lsh(big.NewInt(1), w*uint(nl))
+	// the witness parser enforces the width of the modulus on the most significant limb: representable
+	// values are those below 2^bitlen(q)
+	full := new(big.Int).Lsh(big.NewInt(1), uint(q.BitLen()))
 	fits := func(x *big.Int) bool { return x.Cmp(full) < 0 }
+	_ = w
+	_ = nl
 	switch r.Intn(12) {
 	case 0:
 		return big.NewInt(0), "0"
@@ -769,14 +773,27 @@ func runC12(args []string) int {
 		_ = ri
 	}
 	// ---- C: adversarial hints on a.b = r (first multiplication forged)
-	forgeRun := func(ru emuRunner, name string, forge func(q *big.Int, in, out []*big.Int, K, R *big.Int, put func(K, R *big.Int)) *big.Int, wantReject bool) {
+	// forge(field, K, R) proposes another quotient / remainder; the carries are then recomputed modulo the
+	// native field so that the deferred identity holds coefficient-wise there
+	forgeRun := func(ru emuRunner, name string, forge func(field, K, R *big.Int) (*big.Int, *big.Int, bool)) {
 		p := &eProg{NIn: 2, NBits: 2, Ops: []eOp{{Kind: "Mul", Args: []int{0, 1}}}}
+		full := new(big.Int).Lsh(big.NewInt(1), uint(ru.q.BitLen()))
+		var a, b, claimed *big.Int
+		found := false
+		for try := 0; try < 200 && !found; try++ {
+			a, b = rng.Big(ru.q), rng.Big(ru.q)
+			ab := new(big.Int).Mul(a, b)
+			K, R := new(big.Int).DivMod(ab, ru.q, new(big.Int))
+			K2, R2, ok := forge(bnQ, K, R)
+			if ok && K2.Sign() >= 0 && R2.Sign() >= 0 && R2.Cmp(full) < 0 {
+				found, claimed = true, R2
+			}
+		}
+		if !found {
+			rep.Count("forge:not-applicable:" + name)
+			return
+		}
 		for _, mode := range []string{"r1cs", "scs"} {
-			var a, b *big.Int
-			// choose operands such that the forged remainder fits its limbs
-			a = rng.Big(ru.q)
-			b = rng.Big(ru.q)
-			var claimed *big.Int
 			call := 0
 			forged := func(field *big.Int, in, out []*big.Int) error {
 				if err := mulFn(field, in, out); err != nil {
@@ -796,98 +813,88 @@ func runC12(args []string) int {
 				quo := out[:quoLen]
 				rem := out[quoLen : quoLen+nbLimbs]
 				car := out[quoLen+nbLimbs:]
-				K, R := recompLimbs(quo, nbBits), recompLimbs(rem, nbBits)
-				put := func(K2, R2 *big.Int) {
-					for i, l := range decompLimbs(K2, nbBits, len(quo)) {
-						quo[i].Set(l)
-					}
-					for i, l := range decompLimbs(R2, nbBits, len(rem)) {
-						rem[i].Set(l)
-					}
-					// carries recomputed modulo the native field so that the identity holds coefficient-wise there
-					lhs := limbMulBig(al, bl)
-					rhs := limbMulBig(quo, pl)
-					for i := range rem {
-						if i < len(rhs) {
-							rhs[i].Add(rhs[i], rem[i])
-						} else {
-							rhs = append(rhs, new(big.Int).Set(rem[i]))
-						}
-					}
-					inv := new(big.Int).ModInverse(new(big.Int).Lsh(big.NewInt(1), nbBits), field)
-					carry := new(big.Int)
-					for i := range car {
-						if i < len(lhs) {
-							carry.Add(carry, lhs[i])
-						}
-						if i < len(rhs) {
-							carry.Sub(carry, rhs[i])
-						}
-						carry.Mul(carry, inv)
-						carry.Mod(carry, field)
-						car[i].Set(carry)
+				K2, R2, ok := forge(field, recompLimbs(quo, nbBits), recompLimbs(rem, nbBits))
+				if !ok {
+					return nil
+				}
+				for i, l := range decompLimbs(K2, nbBits, len(quo)) {
+					quo[i].Set(l)
+				}
+				for i, l := range decompLimbs(R2, nbBits, len(rem)) {
+					rem[i].Set(l)
+				}
+				lhs := limbMulBig(al, bl)
+				rhs := limbMulBig(quo, pl)
+				for i := range rem {
+					if i < len(rhs) {
+						rhs[i].Add(rhs[i], rem[i])
+					} else {
+						rhs = append(rhs, new(big.Int).Set(rem[i]))
 					}
 				}
-				claimed = forge(field, in, out, K, R, put)
+				inv := new(big.Int).ModInverse(new(big.Int).Lsh(big.NewInt(1), nbBits), field)
+				carry := new(big.Int)
+				for i := range car {
+					if i < len(lhs) {
+						carry.Add(carry, lhs[i])
+					}
+					if i < len(rhs) {
+						carry.Sub(carry, rhs[i])
+					}
+					carry.Mul(carry, inv)
+					carry.Mod(carry, field)
+					car[i].Set(carry)
+				}
 				return nil
 			}
-			// the claimed (public) result is whatever the forger makes the remainder; run once to learn it
 			exp, _, _ := evalEProg(p, ru.q, []*big.Int{a, b}, []int{0, 0})
 			honest := exp[2]
-			// first pass: compute the forged remainder value
-			call = 0
-			ru.run(p, []*big.Int{a, b}, []int{0, 0}, []*big.Int{honest}, nil, mode, solver.OverrideHint(mulID, forged))
-			if claimed == nil {
-				rep.Count("forge:not-applicable:" + name)
-				continue
-			}
-			call = 0
-			cls, msg, _, _ := ru.run(p, []*big.Int{a, b}, []int{0, 0}, []*big.Int{new(big.Int).Mod(claimed, ru.q)}, nil, mode, solver.OverrideHint(mulID, forged))
-			congruent := new(big.Int).Mod(claimed, ru.q).Cmp(honest) == 0
+			claimedMod := new(big.Int).Mod(claimed, ru.q)
+			cls, msg, _, _ := ru.run(p, []*big.Int{a, b}, []int{0, 0}, []*big.Int{claimedMod}, nil, mode, solver.OverrideHint(mulID, forged))
+			congruent := claimedMod.Cmp(honest) == 0
 			rep.Eval(fmt.Sprintf("forge|%s|%s|%s", ru.name, mode, name), true)
 			rep.Count("forge:" + name + ":" + cls)
 			d := c12Desc{Field: ru.name, Mode: mode, Prog: p, In: []*big.Int{a, b}, Detail: name + " claimed=" + claimed.String()}
 			if cls == "ok" && !congruent {
-				rep.Fail("c12:forged-accepted:mul:"+name+":"+ru.name, "a forged mulHint output makes a.b = r' hold in the circuit with r' not congruent to a.b modulo the emulated modulus", d)
+				sigName := name
+				if name == "k-1,r+q-rn" || name == "k+1,r-q+rn" {
+					sigName = "remainder-shifted-by-q-minus-native"
+				}
+				rep.Fail("c12:forged-accepted:mul:"+sigName+":"+name+":"+ru.name+":"+mode, "a forged mulHint output (quotient, remainder within their range-checked widths, carries recomputed modulo the native field) makes a.b = r' hold in the circuit with r' not congruent to a.b modulo the emulated modulus", d)
 			}
 			if cls == "panic" {
 				rep.Fail("c12:forge-panic:"+name, msg, d)
 			}
-			_ = wantReject
 		}
 	}
-	for _, ru := range runners[:4] {
-		// F10: k-1, r + q - native modulus (fits when r + q - rn < 2^(w nl)); the claimed public result is r' mod q... which is r:
-		// to make the claim incongruent the public value is given unreduced through the limbs, so claim r' itself
-		forgeRun(ru, "k-1,r+q-rn", func(field *big.Int, in, out []*big.Int, K, R *big.Int, put func(K, R *big.Int)) *big.Int {
-			R2 := new(big.Int).Add(R, ru.q)
+	for _, ru := range runners {
+		if ru.nl >= 12 && !o.Thorough() {
+			continue
+		}
+		q := ru.q
+		forgeRun(ru, "k-1,r+q-rn", func(field, K, R *big.Int) (*big.Int, *big.Int, bool) {
+			R2 := new(big.Int).Add(R, q)
 			R2.Sub(R2, field)
-			K2 := new(big.Int).Sub(K, big.NewInt(1))
-			full := new(big.Int).Lsh(big.NewInt(1), ru.w*uint(ru.nl))
-			if R2.Sign() < 0 || K2.Sign() < 0 || R2.Cmp(full) >= 0 {
-				return nil
-			}
-			put(K2, R2)
-			return R2
-		}, false)
-		forgeRun(ru, "r+1", func(field *big.Int, in, out []*big.Int, K, R *big.Int, put func(K, R *big.Int)) *big.Int {
-			R2 := new(big.Int).Add(R, big.NewInt(1))
-			put(K, R2)
-			return R2
-		}, true)
-		forgeRun(ru, "k+1,r-q+rn", func(field *big.Int, in, out []*big.Int, K, R *big.Int, put func(K, R *big.Int)) *big.Int {
-			R2 := new(big.Int).Sub(R, ru.q)
+			return new(big.Int).Sub(K, big.NewInt(1)), R2, field.Cmp(q) != 0
+		})
+		forgeRun(ru, "k+1,r-q+rn", func(field, K, R *big.Int) (*big.Int, *big.Int, bool) {
+			R2 := new(big.Int).Sub(R, q)
 			R2.Add(R2, field)
-			full := new(big.Int).Lsh(big.NewInt(1), ru.w*uint(ru.nl))
-			if R2.Sign() < 0 || R2.Cmp(full) >= 0 {
-				return nil
-			}
-			put(new(big.Int).Add(K, big.NewInt(1)), R2)
-			return R2
-		}, false)
+			return new(big.Int).Add(K, big.NewInt(1)), R2, field.Cmp(q) != 0
+		})
+		forgeRun(ru, "r+1", func(field, K, R *big.Int) (*big.Int, *big.Int, bool) {
+			return K, new(big.Int).Add(R, big.NewInt(1)), true
+		})
+		forgeRun(ru, "k+1", func(field, K, R *big.Int) (*big.Int, *big.Int, bool) {
+			return new(big.Int).Add(K, big.NewInt(1)), R, true
+		})
+		forgeRun(ru, "k-1,r+q", func(field, K, R *big.Int) (*big.Int, *big.Int, bool) {
+			// the same integer identity with a non-canonical remainder: congruent, may be accepted
+			return new(big.Int).Sub(K, big.NewInt(1)), new(big.Int).Add(R, q), true
+		})
 	}
 	// forged inverse / division results
-	for _, ru := range runners[:4] {
+	for _, ru := range runners[:6] {
 		for _, kind := range []string{"Inverse", "Div"} {
 			p := &eProg{NIn: 2, NBits: 2, Ops: []eOp{{Kind: kind, Args: []int{0, 1}}}}
 			if kind == "Inverse" {
@@ -929,15 +936,16 @@ func runC12(args []string) int {
 			}
 		}
 	}
-	var sb strings.Builder
-	sb.WriteString("From Coq Require Import ZArith List Bool.\nFrom GnarkV Require Import Std.Emulated Std.MulCheck Std.EmulatedCases.\nImport ListNotations.\n")
-	sb.WriteString(fmt.Sprintf("Definition padcases : list (Z * Z * Z * nat * list Z) := %s.\n", coqlistNL(padCases)))
-	sb.WriteString("Definition mism_subpadding := Eval vm_compute in pad_mismatches 0 padcases.\nPrint mism_subpadding.\n")
-	sb.WriteString(fmt.Sprintf("Definition opcases : list (nat * Z * Z * nat * (list Z * Z) * (list Z * Z) * (list Z * Z)) := %s.\n", coqlistNL(opCases)))
-	sb.WriteString("Definition mism_addsub := Eval vm_compute in op_mismatches 0 opcases.\nPrint mism_addsub.\n")
-	sb.WriteString(fmt.Sprintf("Definition mulcases : list (Z * list Z * list Z * list Z * list Z * list Z * list Z) := %s.\n", coqlistNL(mulCases)))
-	sb.WriteString(fmt.Sprintf("Definition mism_mulhint := Eval vm_compute in mul_mismatches %s 0 mulcases.\nPrint mism_mulhint.\n", zlit(bnQ)))
-	writeFile(o.Out, "cases_C12.v", sb.String())
+	hdr := "From Coq Require Import ZArith List Bool.\nFrom GnarkV Require Import Std.Emulated Std.MulCheck Std.EmulatedCases.\nImport ListNotations.\n"
+	half := len(padCases) / 2
+	writeFile(o.Out, "cases_C12_pad1.v", hdr+fmt.Sprintf("Definition padcases : list (Z * Z * Z * nat * list Z) := %s.\n", coqlistNL(padCases[:half]))+
+		"Definition mism_subpadding_1 := Eval vm_compute in pad_mismatches 0 padcases.\nPrint mism_subpadding_1.\n")
+	writeFile(o.Out, "cases_C12_pad2.v", hdr+fmt.Sprintf("Definition padcases : list (Z * Z * Z * nat * list Z) := %s.\n", coqlistNL(padCases[half:]))+
+		"Definition mism_subpadding_2 := Eval vm_compute in pad_mismatches 0 padcases.\nPrint mism_subpadding_2.\n")
+	writeFile(o.Out, "cases_C12_ops.v", hdr+fmt.Sprintf("Definition opcases : list (nat * Z * Z * nat * (list Z * Z) * (list Z * Z) * (list Z * Z)) := %s.\n", coqlistNL(opCases))+
+		"Definition mism_addsub := Eval vm_compute in op_mismatches 0 opcases.\nPrint mism_addsub.\n")
+	writeFile(o.Out, "cases_C12_mul.v", hdr+fmt.Sprintf("Definition mulcases : list (Z * list Z * list Z * list Z * list Z * list Z * list Z) := %s.\n", coqlistNL(mulCases))+
+		fmt.Sprintf("Definition mism_mulhint := Eval vm_compute in mul_mismatches %s 0 mulcases.\nPrint mism_mulhint.\n", zlit(bnQ)))
 	rep.CoqCases = len(padCases) + len(opCases) + len(mulCases)
 	rep.Write(o.Out)
 	return 0
